@@ -7,6 +7,7 @@ mod enc;
 mod exec;
 mod gen;
 mod gen2;
+mod gen3;
 mod mach;
 mod replay;
 mod rng;
